@@ -84,7 +84,7 @@ Theorem C12_no_events_no_file : forall p, project_events p = [] ->
   o_events_ts (generate p) = None /\ o_index_reexports_events (generate p) = false.
 Proof. exact no_events_no_file. Qed.
 Theorem C12_events_file_written : forall p, project_events p <> [] -> p_has_command p = true ->
-  o_events_ts (generate p) = Some (events_text (project_events p)) /\ o_index_reexports_events (generate p) = true.
+  o_events_ts (generate p) = Some (events_text (map_events (p_mappings p) (project_events p))) /\ o_index_reexports_events (generate p) = true.
 Proof. exact events_file_written. Qed.
 (* the oracle, on a project without documented emits, accepts exactly "no module, no re-export" *)
 Theorem C12_no_sites_oracle : forall p ev ix, project_sites p = [] ->
